@@ -295,7 +295,7 @@ def case_job(job):
 NL = 3
 LABEL = {"x": "north east", "y": "south", "z": "mid", "": None,
          # labels that cannot be printed bare: operators, an apostrophe, the span separator
-         "w": "a-b", "v": "it's", "u": "up:down", "q": "no #1", "r": 'say "x"', "p": "{b}"}
+         "w": "a-b", "v": "it's", "u": "up:down", "q": "no #1", "r": 'say "x"', "p": "{b}", "o": "x)y", "n": "Total (net)"}
 
 
 def rl_cfg(bug="none", emit=False, nl=3, maxtotal=2, inv=True, cross=False):
@@ -677,7 +677,7 @@ def run(ctx):
     # larger documents: up to 3 sheets x 3 tables, a third label, random references
     for n in range(40 if q else 1500):
         ns = [rng.sample(["A", "B", "C"], rng.randint(1, 3)) for _ in range(rng.randint(1, 3))]
-        labs = [[[rng.choice(["x", "y", "z", "", "x", "w", "v", "u", "q", "r", "p"]) for _ in range(NL)] for _ in sh] for sh in ns]
+        labs = [[[rng.choice(["x", "y", "z", "", "x", "w", "v", "u", "q", "r", "p", "o", "n"]) for _ in range(NL)] for _ in sh] for sh in ns]
         tabs = [(s + 1, t + 1) for s in range(len(ns)) for t in range(len(ns[s]))]
         full = []
         for _ in range(30):
